@@ -73,6 +73,10 @@ def key_unit(t):
         return tuple(t[:4])
     if t[0] == "pair":
         return ("pair", t[2], t[4], t[5], t[6])
+    if t[0] == "pushbits":
+        sc = t[2].split(";")
+        last = sc[-1].split(":")[-1] if sc != ["-"] else "-"
+        return ("pushbits", len(sc), last, sum(int(x.split(":")[1]) for x in sc if ":" in x and int(x.split(":")[1]) < 1000) % 8)
     if t[0] == "select":
         res = t[a + 1:]
         return ("select", t[2], t[3], t[4], t[5] != "-", res[1] if len(res) > 1 else res[0], len(t[1]) % 5)
@@ -135,11 +139,12 @@ PROPS = {
              "BCH(18,6) (v>=7), size, forced options honoured, default Q, automatic mode = classifier, encoded mode = reported.",
         exhaustive_quick=True, exhaustive_thorough=True, trusted=COMMON_TRUST),
     "C06": dict(
-        module="FastQr.Props.C06", level="proof", key=key_build, partial=True,
-        missing=["refinement theorem C06_bitstream (model encode = Spec.Bitstream.codewords for every payload) not yet closed; "
-                 "compared on every generated case instead"],
-        rule="cases: per (version, level): forced/auto modes, lengths leaving 0..6 characters of room (all residues mod 3 / mod 2, "
-             "0..12 spare bits), random; spec verdict = data codewords read from the symbol = ISO 7.4 encoding of the input.",
+        module="FastQr.Props.C06", level="proof", key=key_unit,
+        rule="cases: (a) unit level through the hook: push_bits / push_u8 / fill scripts, every (len % 8, width 0..=64) x 4 value "
+             "kinds after random prefixes + random scripts; spec verdict = the bit-buffer law (buffer = concatenation of the pushed "
+             "low bits, zero beyond len); (b) builds per (version, level): forced/auto modes, lengths leaving 0..6 characters of "
+             "room (all residues mod 3 / mod 2, 0..12 spare bits), random; spec verdict = data codewords read from the symbol = "
+             "ISO 7.4 encoding of the input. distinct = (script shape, alignment) / (option shape, reported fields, length class).",
         trusted=COMMON_TRUST),
     "C07": dict(
         module="FastQr.Props.C07", level="proof", key=key_unit,
@@ -155,9 +160,7 @@ PROPS = {
         exhaustive_quick=True, exhaustive_thorough=True,
         trusted=COMMON_TRUST + ["sweepOk: evaluated by native_decide (Lean compiler trusted for this closed term)"]),
     "C10": dict(
-        module="FastQr.Props.C10", level="proof", key=key_build, partial=True,
-        missing=["(build inp o).traps = [] is proved stage-wise for the payload-independent stages and the terminator; the "
-                 "byte-level push_bits bounds and the composition are not yet closed"],
+        module="FastQr.Props.C10", level="proof", key=key_build,
         rule="cases: lengths 0..8000 (quick stride 37 + capacity boundaries, thorough every length x 4 contents), arbitrary "
              "bytes with automatic mode, forced modes on their alphabets, random level/version/mask options; panics are "
              "caught (debug-assertions + overflow-checks on). Malformed stream (buildx) only validates the model's traps.",
